@@ -68,8 +68,10 @@ func verifPrePassLemmas(data string) {
 	if !ok {
 		return
 	}
-	dl := strings.Split(data, "\n")
-	cl := strings.Split(cleaned, "\n")
+	// lines: what the lexer takes for lines - a line feed or a carriage return ends one (CR LF gives an empty
+	// line in between, on both sides alike)
+	dl := strings.Split(strings.ReplaceAll(data, "\r", "\n"), "\n")
+	cl := strings.Split(strings.ReplaceAll(cleaned, "\r", "\n"), "\n")
 	zzverif.Assert(len(cl) <= len(dl), "no-line-added")
 	if len(cl) > len(dl) {
 		return
@@ -92,14 +94,23 @@ func verifPrePassLemmas(data string) {
 		// or the whole line when its first non-blank byte is '#'
 		cut := zzverif.Or(verifAllSpaces(rest), zzverif.Or(zzverif.And(strings.HasPrefix(rest, " "), verifCommentLine(rest)), zzverif.And(len(c) == 0, verifCommentLine(d))))
 		zzverif.Assert(cut, "only-comment-or-trailing-blanks-removed")
+		// a comment ends where the line ends for the lexer: a carriage return that is not the CR of a CR LF
+		// is a line break of the grammar (NEWLINE: ... '\r'? '\n' | '\r' | ...), what follows it is not comment
+		// (with lines ending at carriage returns too this is implied by the line count; kept as the named lemma)
+		noCR := true
+		for k := 0; k < len(rest); k++ {
+			noCR = zzverif.And(noCR, rest[k] != '\r')
+		}
+		zzverif.Class("comment-ends-at-the-line-break-of-the-grammar", "lone carriage return as line end")
+		zzverif.Assert(noCR, "comment-ends-at-the-line-break-of-the-grammar")
 		if len(c) > 0 {
 			zzverif.Assert(c[len(c)-1] != ' ', "trailing-blanks-removed")
 			zzverif.Assert(zzverif.Not(verifContains2(c, ' ', '#')), "trailing-comment-removed")
 			zzverif.Assert(zzverif.Not(verifCommentLine(c)), "comment-line-removed")
 		}
 	}
-	if len(cl) > 1 {
-		zzverif.Assert(len(cl[len(cl)-1]) > 0, "trailing-newlines-trimmed")
+	if nl := strings.Split(cleaned, "\n"); len(nl) > 1 {
+		zzverif.Assert(len(nl[len(nl)-1]) > 0, "trailing-newlines-trimmed")
 	}
 	zzverif.Reach("lemmas-checked")
 }
